@@ -99,6 +99,7 @@ class Capture:
         self.main = main
         self.calls = []           # NRT: (n_elements,)   RT: (bytes, target)
         self.sync_replies = 0
+        self.times = []
         self.fault_armed = False
         self.faults_injected = 0
         itf = main._osc_interface
@@ -140,6 +141,7 @@ class Capture:
                         pass
                     return
                 self.calls.append((data, target))
+                self.times.append(_time.time())
                 # stand-in for the server: every '/sync id' is answered with
                 # '/synced id', fed through the interface's receive path
                 if b'/sync' in data:
@@ -155,6 +157,7 @@ class Capture:
 
     def reset(self):
         self.calls = []
+        self.times = []
 
     def packets(self):
         """Decoded packets in emission order: [(packet, target)]."""
@@ -273,6 +276,10 @@ class Runner:
             return lambda buf: ['/b_query', buf.bufnum]
         if f == 'index':
             return lambda buf, i: ['/b_set', buf.bufnum, 0, i]
+        if f == 'raise':
+            def boom(buf):
+                raise Boom('completion function failed')
+            return boom
         return lambda buf: None
 
     # ---- env facts -----------------------------------------------------------
@@ -1213,3 +1220,189 @@ def _method_of(op):
     if k in ('node', 'buf', 'busm', 'server'):
         return f"{k}.{op['m']}"
     return k
+
+
+# ---------------------------------------------------------------------------
+# streaming routines (Buffer.send_list / get_to_list) overlapping bind() blocks
+
+def run_stream_case(m, server, cap, case, clocks, count, wait_limit=6.0):
+    """Returns None (held), 'timeout' (no verdict) or raises Violation.
+    Decides on observed traffic only: every chunk of the stream reaches the
+    wire exactly once, in order, with the right offsets; chunks issued while
+    a bind() block is open travel in that block's bundle, never directly."""
+    import random
+    kind, n, ch, start = case['kind'], case['n'], case['channels'], case['start']
+    w = case['wait']
+    vr = random.Random(case['values_seed'])
+    grid = [k / 64.0 for k in range(-64, 65)]              # float32 exact
+    lst = [vr.choice(grid) for _ in range(n)] if kind == 'send_list' else None
+    frames = (n // ch) + start + 16
+    buf = m.Buffer(frames, ch, server)
+    grp = m.Group(server)
+    bufnum, gid = buf.bufnum, grp.node_id
+    done = threading.Event()
+    marks = {}
+    cap.reset()
+
+    def begin():
+        if kind == 'send_list':
+            buf.send_list(lst, start, w, lambda *a: done.set())
+        else:
+            buf.get_to_list(lambda *a: None, start, n, w, 30)
+
+    def body_inside(proxy, sleeper):
+        marks['enter'] = _time.time()
+        grp.run(False)
+        begin()
+        t0 = _time.time()
+        while len(proxy.get_bundle()) - 1 < 2 and _time.time() - t0 < 2.0:
+            yield 0.005
+        yield w * (case['hold'] - 1.2)
+        grp.trace()
+        marks['pre_exit'] = _time.time()
+
+    def drive(gen):
+        for d in gen:
+            _time.sleep(d)
+
+    escaped = []
+    form = case['form']
+    try:
+        if form == 'no-block':
+            begin()
+        elif form == 'start-inside':
+            with server.bind() as proxy:
+                drive(body_inside(proxy, None))
+        elif form == 'start-outside':
+            begin()
+            t0 = _time.time()
+            while not cap.calls and _time.time() - t0 < 2.0:
+                _time.sleep(0.003)
+            with server.bind() as proxy:
+                marks['enter'] = _time.time()
+                grp.run(False)
+                _time.sleep(w * case['hold'])
+                grp.trace()
+                marks['pre_exit'] = _time.time()
+        else:       # the block lives in a routine that yields after starting the stream
+            fin = threading.Event()
+
+            def task():
+                try:
+                    with server.bind() as proxy:
+                        marks['enter'] = _time.time()
+                        grp.run(False)
+                        begin()
+                        yield w * case['hold']
+                        grp.trace()
+                        marks['pre_exit'] = _time.time()
+                except Exception as e:          # noqa
+                    escaped.append(e)
+                finally:
+                    fin.set()
+            m.Routine.run(task, clocks[case['clock']])
+            if not fin.wait(wait_limit):
+                return 'timeout'
+    except Exception as e:
+        escaped.append(e)
+    if escaped:
+        e = escaped[0]
+        raise Violation(f'C17/stream/raises/{_site(e)}', {'tb': short_tb(e)})
+    # wait for the stream to finish: the action callback, or (get_to_list has
+    # none without replies) until no new datagram has arrived for a while
+    nchunks = -(-n // (1626 if kind == 'send_list' else 1633))
+    t0 = _time.time()
+    if kind == 'send_list':
+        if not done.wait(wait_limit):
+            return 'timeout'
+        _time.sleep(0.02)
+    else:
+        _time.sleep(w * (nchunks + 2) + 0.05)
+    calls = list(cap.calls)
+    times = list(cap.times)
+    packets = [(osc.decode(b), t) for b, t in calls]
+    # ---- expected chunk sequence
+    cmd = '/b_setn' if kind == 'send_list' else '/b_getn'
+    exp = []
+    if kind == 'send_list':
+        for pos in range(0, n, 1626):
+            sub = lst[pos:pos + 1626]
+            exp.append([cmd, bufnum, start * ch + pos, len(sub)] + [mc.Num(v) for v in sub])
+    else:
+        pos = start
+        while pos < start + n:
+            size = min(1633, start + n - pos)
+            exp.append([cmd, bufnum, pos, size])
+            pos += size
+    # ---- observed
+    wire = []            # (chunk Msg, 'bundle' | 'direct', call index)
+    bundle_other = None
+    for k, (p, _t) in enumerate(packets):
+        if isinstance(p, osc.Bundle):
+            others = []
+            for mm in p.elements:
+                if isinstance(mm, osc.Msg) and mm.addr == cmd and mm.args[:1] == [bufnum]:
+                    wire.append((mm, 'bundle', k))
+                else:
+                    others.append(mm)
+            if form != 'no-block' and bundle_other is None:
+                bundle_other = others
+        elif p.addr == cmd and p.args[:1] == [bufnum]:
+            wire.append((p, 'direct', k))
+    def brief(mm):
+        return [mm.addr] + list(mm.args[:3]) + [f'... {len(mm.args) - 3} values']
+    wit = {'case': case, 'expected_chunks': [e[:4] for e in exp],
+           'wire_chunks': [brief(mm) + [how] for mm, how, _ in wire]}
+    count('stream_chunks_expected', len(exp))
+    count('stream_chunks_in_block_bundle', sum(1 for _, h, _k in wire if h == 'bundle'))
+    count('stream_chunks_sent_directly', sum(1 for _, h, _k in wire if h == 'direct'))
+    if 'enter' in marks:
+        # a thread that had already fetched server.addr when the block was
+        # entered may still deliver one datagram a moment later: only sends
+        # well inside the open block (half a chunk period after entering)
+        # decide
+        lo, hi = marks['enter'] + w / 2, marks.get('pre_exit', 1e18)
+        for mm, how, k in wire:
+            if how == 'direct' and lo <= times[k] < hi:
+                wit['seconds_after_block_entry'] = round(times[k] - marks['enter'], 4)
+                raise Violation('C17/stream/chunk-sent-directly-while-block-open', wit)
+    # every chunk exactly once; the chunks issued inside the block (bundle,
+    # sent at exit) and the ones issued outside (direct) each keep issue order
+    def offs(seq):
+        return [mm.args[1] for mm in seq]
+    by_off = sorted((x[0] for x in wire), key=lambda mm: mm.args[1])
+    j = 0
+    lost = []
+    for e in exp:
+        if j < len(by_off) and mc.match_message(e, by_off[j], _decode_blob) is None:
+            j += 1
+        else:
+            lost.append(e[:4])
+    extra = by_off[j:]
+    if lost and not extra and len(by_off) < len(exp):
+        wit['lost'] = lost
+        raise Violation('C17/stream/chunks-lost', wit)
+    if extra or lost:
+        seen = offs(by_off)
+        dup = len(set(seen)) < len(seen)
+        wit['lost'] = lost
+        raise Violation('C17/stream/' + ('chunks-duplicated' if dup else 'chunks-differ'),
+                        wit)
+    for how in ('bundle', 'direct'):
+        o = offs([mm for mm, h, _k in wire if h == how])
+        if o != sorted(o):
+            raise Violation(f'C17/stream/chunks-out-of-issue-order/{how}', wit)
+    if form != 'no-block':
+        want = [['/n_run', gid, 0], ['/n_trace', gid]]
+        got = bundle_other or []
+        if len(got) != 2 or any(mc.match_message(a, b, _decode_blob)
+                                for a, b in zip(want, got)):
+            wit['bundle_other'] = [_show(x) for x in got]
+            raise Violation('C17/stream/block-bundle-differs', wit)
+        if any(h == 'bundle' for _, h, _k in wire):
+            count('stream_cases_with_chunks_inside_block')
+        if any(h == 'direct' for _, h, _k in wire):
+            count('stream_cases_with_chunks_outside_block')
+    count('stream_cases_checked')
+    count(f'stream_cases:{kind}:{form}')
+    return None
